@@ -92,6 +92,7 @@ structure Req where
   tx : Bytes
   useCandidate : Bool
   accepted : Bool      -- result of `stun_request_authenticated(packet, inner)` on the raw datagram
+  priority : Option Nat := none   -- the PRIORITY attribute, as decoded (`msg.priority`)
 deriving DecidableEq, Repr
 
 /-- what `handle_packet` does with one datagram, as an abstract input -/
@@ -127,15 +128,16 @@ def sameIp (a b : Addr) : Bool :=
 /-- `ip().is_unspecified()` -/
 def unspecified (a : Addr) : Bool := (ipOf a).all (· = 0)
 
-/-- the peer-reflexive candidate built for an unknown source -/
-def prflxCand (sock : Sock) (src : Addr) : Cand :=
+/-- the peer-reflexive candidate built for an unknown source: its priority is the PRIORITY attribute of the
+request (RFC 8445 §7.3.1.3, since the `fix:` commit), the locally computed value only if there is none -/
+def prflxCand (sock : Sock) (src : Addr) (prio : Option Nat := none) : Cand :=
   { address := src, base := src, typ := .prflx, tcp := sock.prflxTcp, passive := false,
-    priority := if sock.prflxTcp then priorityForTcp .prflx 1 .passive else priorityFor .prflx 1 }
+    priority := prio.getD (if sock.prflxTcp then priorityForTcp .prflx 1 .passive else priorityFor .prflx 1) }
 
 /-- "Check if we know this candidate" … push -/
-def learn (s : St) (sock : Sock) (src : Addr) : St :=
+def learn (s : St) (sock : Sock) (src : Addr) (prio : Option Nat := none) : St :=
   if s.remotes.any (fun c => c.address = src) then s
-  else { s with remotes := s.remotes ++ [prflxCand sock src] }
+  else { s with remotes := s.remotes ++ [prflxCand sock src prio] }
 
 /-- `publish_selected_socket(inner, pair, Some(sender))`: the inbound TCP stream wins, otherwise whatever
 `resolve_socket` finds for the pair (nothing is published if it finds none) -/
@@ -170,10 +172,14 @@ def tcpPair (s : St) (sock : Sock) (src : Addr) : Option Pair :=
     | some l, some r => some ⟨l, r⟩
     | _, _ => none                                  -- (only publishes the inbound socket)
 
+/-- `set_state_unless_closed(&inner, Connected)`: the state writes of the transport's own tasks never leave
+`Closed` (`stop()` is final) -/
+def toConnected (st : IceState) : IceState := if st = .closed then .closed else .connected
+
 /-- pair found: select it, publish the stream, Connected; none: only the inbound stream is published -/
 def withPairConnected (s : St) (p : Option Pair) : St :=
   match p with
-  | some p => { s with selected := some p, state := .connected, selSock := some .stream }
+  | some p => { s with selected := some p, state := toConnected s.state, selSock := some .stream }
   | none => { s with selSock := some .stream }
 
 /-- `complete_controlled_inbound_tcp_nomination` -/
@@ -208,12 +214,12 @@ def useCandidate (s : St) (sock : Sock) (src : Addr) : St :=
     match ucPair s sock src with
     | some p =>
       let s1 := if shouldSelect s p then publish { s with selected := some p } p sock else s
-      { s1 with state := .connected, nominated := some true }
+      { s1 with state := toConnected s1.state, nominated := some true }
     | none => { s with nominated := some true }
 
 /-- `handle_stun_request` after the reply and the `if !authenticated { return; }` gate -/
 def handleAuthenticated (s : St) (sock : Sock) (src : Addr) (r : Req) : St :=
-  let s1 := learn s sock src
+  let s1 := learn s sock src r.priority
   let s2 := latch s1 sock src
   let s3 := tcpNominate s2 sock src
   if r.useCandidate then useCandidate s3 sock src else s3
@@ -227,13 +233,18 @@ def handleRequest (s : St) (sock : Sock) (src : Addr) (r : Req) : St :=
 def handleResponse (s : St) (tx : Bytes) : St × Option Bytes :=
   if tx ∈ s.pending then ({ s with pending := s.pending.filter (· ≠ tx), lastRx := s.now }, some tx) else (s, none)
 
+/-- `from_selected_peer`: traffic that is not part of a STUN transaction (media, Binding indications) counts
+as liveness only when it comes from the remote address of the selected pair -/
+def fromSelectedPeer (s : St) (src : Addr) : Bool :=
+  match s.selected with | some p => p.rem.address = src | none => false
+
 /-- `handle_packet` -/
 def step (s : St) (sock : Sock) (src : Addr) (i : Inp) : St × Out :=
   match i with
   | .empty => (s, {})
-  | .data => ({ s with lastRx := s.now }, { forwarded := true })
+  | .data => (if fromSelectedPeer s src then { s with lastRx := s.now } else s, { forwarded := true })
   | .undecodable => (s, {})
-  | .indication => (s, {})
+  | .indication => (if fromSelectedPeer s src then { s with lastRx := s.now } else s, {})
   | .request r => (handleRequest s sock src r, { replied := sock.canSend })
   | .response tx _ =>
     let (s', d) := handleResponse s tx
@@ -274,6 +285,27 @@ def tickKeepalive (s : St) : Keepalive :=
 def tick (s : St) (tx : Bytes) : St × Keepalive :=
   ({ tickState s with pending := if tickKeepalive s = .credentialed then s.pending ++ [tx] else s.pending },
    tickKeepalive s)
+
+/-! ### the TCP stream table (`IceGatherer::tcp_streams`) — written BEFORE any authentication -/
+
+/-- one entry per key: the listener address for accepted connections (`run_tcp_listen_loop`,
+`attach_demuxed_tcp_stream`), the connection's local address for outbound ones; the value is the stream,
+identified here by its peer address -/
+abbrev TcpTable := List (Addr × Addr)
+
+/-- `store_tcp_stream(key, wrapper)` = `HashMap::insert`: the newest stream under a key replaces the old one -/
+def storeTcpStream (t : TcpTable) (key peer : Addr) : TcpTable := (key, peer) :: t.filter (fun e => e.1 ≠ key)
+
+/-- `run_tcp_listen_loop` on `accept()` / `attach_demuxed_tcp_stream` on the first frame: the connection is stored
+(and handed to the runner) before a single byte has been authenticated -/
+def acceptTcp (t : TcpTable) (listen peer : Addr) : TcpTable := storeTcpStream t listen peer
+
+/-- the TCP branch of `resolve_socket` (keepalive tick, selection after the checks): a stream whose peer is the
+pair's remote address, else whatever is stored under the local base address (`get_tcp_socket`) -/
+def resolveTcp (t : TcpTable) (pairRemote localBase : Addr) : Option Addr :=
+  match t.find? (fun e => e.2 = pairRemote) with
+  | some e => some e.2
+  | none => (t.find? (fun e => e.1 = localBase)).map (·.2)
 
 /-! ### other consumers of STUN responses -/
 
@@ -355,7 +387,7 @@ def classify (P : Prims) (ufrag pwd : Bytes) (pkt : Bytes) : Inp :=
       match decode pkt with
       | .ok d =>
         match d.cls with
-        | .request => .request ⟨d.tx, d.useCandidate, codeAuth P ufrag pwd pkt⟩
+        | .request => .request ⟨d.tx, d.useCandidate, codeAuth P ufrag pwd pkt, d.priority⟩
         | .success => .response d.tx false
         | .error => .response d.tx true
         | .indication => .indication
@@ -370,5 +402,22 @@ def rfcAuthentic (P : Prims) (ufrag pwd : Bytes) (pkt : Bytes) : Bool :=
      | some a => (ufrag ++ [58]).isPrefixOf a.2.2
      | none => false
    | none => false) && StunRfc.integrityOk P pwd pkt
+
+/-! ### histories: datagrams, keepalive ticks, clock -/
+
+/-- everything that happens to the transport: datagrams, keepalive ticks (with the transaction id the
+tick draws), the clock advancing -/
+inductive HEv where
+  | pkt (sock : Sock) (src : Addr) (i : Inp)
+  | tick (tx : Bytes)
+  | advance (t : Nat)
+
+def hstep (s : St) : HEv → St
+  | .pkt sock src i => (step s sock src i).1
+  | .tick tx => (tick s tx).1
+  | .advance t => { s with now := s.now + t }
+
+def hrun (s : St) (evs : List HEv) : St := evs.foldl hstep s
+
 
 end RtcModel.IceAuth
